@@ -46,7 +46,7 @@ ASSUMPTIONS = [
 
 
 def budget(tier):
-    return 1500 if tier == "quick" else 60000
+    return 3000 if tier == "quick" else 250000
 
 
 # ---------------------------------------------------------------------------------- generate
